@@ -93,6 +93,7 @@ func checkC16(c *Ctx) {
 	c.Clause("generated identifiers derive from crypto/rand.Read over a buffer of ≥ 12 bytes")
 	c.Clause("buildHandler applies RequestContextMiddleware outermost on every non-error path")
 	c.Clause("the ID headers set before the chain survive an interim (1xx) response, after which httputil empties the header map: the writer given to the reverse proxy restores a snapshot of the pre-set headers")
+	c.Clause("no other Helios code deletes or overwrites the ID headers on a response (header deletions under computed keys, wholesale map replacement)")
 	c.NotDecided("a second value added by inner layers (backend echo through httputil's additive header copy, the request-id plugin); statistical uniqueness")
 
 	// The rules are stated end to end on the middleware's handler, with the logging package's own
@@ -634,6 +635,7 @@ func checkC17(c *Ctx) {
 	c.Clause("BuildChain wraps h = mw(h) once per element, iterating from the last index down to 0, uniformly in the element")
 	c.Clause("registered plugin names are distinct constants, registered from init functions only")
 	c.Clause("with plugins configured every request reaches the balancer through the chain: the handler builder uses the balancer only as BuildChain's base (and as the no-plugin fallback) and hands on BuildChain's own result")
+	c.Clause("a plugin that authenticates compares with a credential its factory refused when empty; a failing listener start is reported to main (no shadowed error), and no fallible start-up step runs after the listener was started")
 	c.NotDecided("run-time nesting for specific permutations (argued from the uniform loop shape, not enumerated)")
 
 	bc := p.Fn("internal/plugins", "", "BuildChain")
